@@ -2,7 +2,8 @@ import LospanVerif.Facts.Storage
 /- Tie: the SQL statements behind the row-level operations of Model/Pipeline.lean are the ones the
    model transcribes:
      DB.advanceFCntUp  one UPDATE, conditional on `fcnt_up <= fCnt`, writing fcnt_up and key_warning only
-     DB.nextFCntDn     SELECT fcnt_dn / UPDATE fcnt_dn in one transaction inside one critical section
+     DB.nextFCntDn     SELECT fcnt_dn / UPDATE fcnt_dn in one transaction inside one critical section, whose
+                       commit error is returned (a counter is handed out only when the commit went through)
      DB.updateState    fcnt_dn, fcnt_up, key_warning of the row with that EUI
      DB.setSent        sent_time and fcnt_up of the row (device, created)
      DB.ackTime        rows of the device with that fcnt_up, sent, not yet acknowledged
@@ -19,7 +20,8 @@ theorem tie_advanceFCntUp : Facts.Storage.advanceFCntUpSQL =
 theorem tie_nextFCntDn :
     Facts.Storage.getFCntDnSQL = some "SELECT fcnt_dn FROM lora_devices WHERE eui = $1" ∧
     Facts.Storage.setFCntDnSQL = some "UPDATE lora_devices SET fcnt_dn = $1 WHERE eui = $2" ∧
-    Facts.Storage.nextFCntDnLocked = true ∧ Facts.Storage.nextFCntDnInTx = true := ⟨rfl, rfl, rfl, rfl⟩
+    Facts.Storage.nextFCntDnLocked = true ∧ Facts.Storage.nextFCntDnInTx = true ∧
+    Facts.Storage.nextFCntDnCommitChecked = true := ⟨rfl, rfl, rfl, rfl, rfl⟩
 
 theorem tie_updateState : Facts.Storage.updateStateSQL =
     some "UPDATE lora_devices SET fcnt_dn = $1, fcnt_up = $2, key_warning = $3 WHERE eui = $4" := rfl
